@@ -44,7 +44,20 @@ func condValuer(nowArg, valArg string) (influxql.Valuer, time.Time, *time.Locati
 			return nil, now, nil, err
 		}
 		loc := time.FixedZone("", secs)
-		return &influxql.NowValuer{Now: now, Location: loc}, now, loc, nil
+		// the clock reaches ConditionExpr in the compositions callers build: bare, behind a variable map,
+		// nested, and behind another zone-aware valuer that knows no zone. The zone of the query is the first one
+		// that is actually known (round-5 seeded change C10-1: MultiValuer.Zone answered with the first zone-aware
+		// member, known zone or not). The composition is chosen by the offset, so a case is reproducible.
+		nv := &influxql.NowValuer{Now: now, Location: loc}
+		switch ((secs/1800)%4 + 4) % 4 {
+		case 1:
+			return influxql.MultiValuer(influxql.MapValuer(map[string]interface{}{}), nv), now, loc, nil
+		case 2:
+			return influxql.MultiValuer(influxql.MultiValuer(influxql.MapValuer(map[string]interface{}{})), nv), now, loc, nil
+		case 3:
+			return influxql.MultiValuer(influxql.MultiValuer(influxql.MapValuer(map[string]interface{}{}), &influxql.NowValuer{Now: now}), nv), now, loc, nil
+		}
+		return nv, now, loc, nil
 	}
 	return nil, now, nil, fmt.Errorf("bad valuer arg %q", valArg)
 }
@@ -784,7 +797,7 @@ func randCondEnv(r *rand.Rand) (string, string) {
 	case 0:
 		valuer = "novaluer"
 	case 1, 2, 3:
-		valuer = "off:" + pick(r, []string{"0", "3600", "-25200", "19800", "1", "-1", "50400", "-43200"})
+		valuer = "off:" + pick(r, []string{"0", "3600", "-25200", "19800", "1", "-1", "50400", "-43200", "1800", "5400", "-1800", "-28800", "34200"})
 	}
 	return now, valuer
 }
